@@ -92,7 +92,20 @@ def build_text(rng, special_lines, refs, crlf, n_before=None, service=False):
         body.append(filler() if rng.random() < 0.5 else "")
     text = "\n".join(body) + ("\n" if rng.random() < 0.7 else "")
     span = "\n".join(special_lines).count("\n") + 1
-    if crlf:
+    if crlf == "cr":
+        text = text.replace("\n", "\r")  # bare CR (classic Mac OS) ends a line, too
+    elif crlf == "mixed":
+        out = []
+        for i, ch in enumerate(text):
+            if ch != "\n":
+                out.append(ch)
+                continue
+            style = rng.choice(["\n", "\r\n", "\r"])
+            if style == "\r" and text[i + 1:i + 2] == "\n":
+                style = "\n"  # a bare CR directly before another line break would read as one CRLF
+            out.append(style)
+        text = "".join(out)
+    elif crlf:
         text = text.replace("\n", "\r\n")
     return text, start, span
 
@@ -111,7 +124,7 @@ def gen_case(rng):
             names.append("M%d" % i)
     mode = rng.choice(["fault", "fault", "print"])
     api = rng.choice(["read_namespace", "read_namespace", "read_files"])
-    crlf = rng.random() < 0.3
+    crlf = rng.choice([False, False, False, False, False, True, True, True, "cr", "mixed"])
     root = "rt"
     files = {}
     special = {}
@@ -135,7 +148,7 @@ def gen_case(rng):
                         stmts.append(rng.choice(["", "# c", "uint8 p%d" % t]))
                 text, start, span = build_text(rng, stmts, refs, crlf, service=(depth == 0 and rng.random() < 0.25))
                 # line of every tag
-                plain = text.replace("\r\n", "\n").split("\n")
+                plain = text.replace("\r\n", "\n").replace("\r", "\n").split("\n")
                 where = {}
                 for t in tags:
                     for li, ln in enumerate(plain, 1):
@@ -277,7 +290,7 @@ def run_shard(ctx):
         nontrivial = start > 1
         ctx.case((sp["kind"], start, case["depth"], case["first_as_target"], case["api"], case["crlf"]), nontrivial,
                  classes=["mode-" + sp["mode"], "kind-" + sp["kind"], "depth-%d" % case["depth"], "api-" + case["api"],
-                          "first-as-" + ("target" if case["first_as_target"] else "dependency"), "eol-" + ("crlf" if case["crlf"] else "lf")],
+                          "first-as-" + ("target" if case["first_as_target"] else "dependency"), "eol-" + ({True: "crlf", False: "lf"}.get(case["crlf"], str(case["crlf"])))],
                  sample={"files": case["files"], "special": sp, "api": case["api"]} if i < 2 else None)
 
 
